@@ -1632,7 +1632,7 @@ fn fd_strategy(profile: Profile) -> BoxedStrategy<FdCfg> {
 fn cfg_strategy(profile: Profile, mon: Monitor) -> BoxedStrategy<SimCfg> {
     let kv_grace = match profile {
         Profile::Gc | Profile::TruncGc => prop_oneof![3 => Just(2_000u64), 1 => Just(10_000u64)].boxed(),
-        _ => prop_oneof![2 => Just(2_000u64), 2 => Just(10_000u64), 3 => Just(3_600_000u64)].boxed(),
+        _ => prop_oneof![1 => Just(0u64), 2 => Just(2_000u64), 2 => Just(10_000u64), 3 => Just(3_600_000u64)].boxed(),
     };
     let predicate = if mon == Monitor::C13 { (0u8..4).boxed() } else { prop_oneof![4 => Just(0u8), 1 => 1u8..4].boxed() };
     let two = profile == Profile::TwoClusters;
@@ -1696,4 +1696,97 @@ pub fn run(ctx: &Ctx, report: &mut Report, mon: Monitor, quick: u64, thorough: u
 
 pub fn replay(ctx: &Ctx, sub: &str, case: &serde_json::Value, mon: Monitor) -> SubResult {
     replay_case::<SimCase, _>(ctx, sub, case, |c, t| exec_sim(c, mon, t))
+}
+
+// ------------------------------------------------------------------------------------------
+// C12: the removed-member memory (500 entries). Many members die and are removed; stale digests
+// must not revive any of them, strictly higher heartbeats must.
+
+#[derive(Clone, Debug, Serialize, Deserialize)]
+pub struct MemoryCase {
+    /// Number of members that are introduced and removed (1..=500).
+    pub members: u16,
+    /// Heartbeat known at removal.
+    pub heartbeat: u32,
+    /// Second wave: members removed a second time at a higher heartbeat (exercises overwrite).
+    pub second_wave: bool,
+    /// Order in which the stale digests come back (seed of a permutation).
+    pub order_seed: u32,
+}
+
+pub fn exec_memory(case: &MemoryCase, tally: &mut Tally) -> Result<(), Failure> {
+    with_paused_runtime(async {
+        let mon = Monitor::C12;
+        let n = (case.members as usize).clamp(1, 500);
+        let fd = FdCfg { dead_grace_ms: 20_000, ..FdCfg::default() };
+        let id = simple_id("obs", 0, 7000);
+        let mut node = build_node(&id, "c", Duration::from_secs(3600), &fd, false, 0).chitchat;
+        let ids: Vec<WId> = (0..n).map(|i| WId::v4(&format!("d{i}"), 0, 10_000 + i as u16)).collect();
+        let digest_msg = |hb: u64, subset: &[usize]| -> chitchat::ChitchatMessage {
+            let mut d: Vec<WNodeDigest> = subset.iter().map(|i| WNodeDigest { id: ids[*i].clone(), heartbeat: hb, last_gc: 0, max_version: 0 }).collect();
+            sort_digest_real_order(&mut d);
+            let (bytes, _) = encode_msg(&WMsg::Syn { cluster_id: "c".into(), digest: d }, Blocking::Canonical);
+            real_decode(&bytes).expect("decodes").0
+        };
+        let all: Vec<usize> = (0..n).collect();
+        let mut hb = case.heartbeat as u64 + 1;
+        let waves = if case.second_wave { 2 } else { 1 };
+        for wave in 0..waves {
+            // introduce (or revive with a strictly higher heartbeat), let them die, remove them
+            node.verif_process_message(digest_msg(hb, &all));
+            if node.node_states().len() != n + 1 {
+                return Err(fail(mon, "not-recreated-by-higher-heartbeat", format!("wave {wave}: a digest with heartbeat {hb} (strictly higher than at removal) left {} of {n} members known", node.node_states().len() - 1)));
+            }
+            node.verif_update_nodes_liveness();
+            advance_ns(20_000 * 1_000_000).await;
+            node.verif_update_nodes_liveness();
+            if node.node_states().len() != 1 {
+                return Err(fail(mon, "not-removed-after-grace", format!("wave {wave}: {} members still present after the grace period", node.node_states().len() - 1)));
+            }
+            if wave + 1 < waves {
+                hb += 3;
+            }
+        }
+        // stale digests (equal and lower heartbeats), in a shuffled order, in chunks
+        let mut order = all.clone();
+        let mut x = case.order_seed as u64;
+        for i in (1..order.len()).rev() {
+            x = splitmix64(x);
+            order.swap(i, (x % (i as u64 + 1)) as usize);
+        }
+        for (c, chunk) in order.chunks(97).enumerate() {
+            let stale = if c % 2 == 0 { hb } else { hb.saturating_sub(1) };
+            node.verif_process_message(digest_msg(stale, chunk));
+            if node.node_states().len() != 1 {
+                let revived: Vec<String> = node.node_states().keys().filter(|k| **k != id).map(|k| k.node_id.clone()).take(3).collect();
+                return Err(fail(mon, "revived-by-stale-gossip", format!("{} removed members (heartbeat {hb} at removal) were recreated by a digest carrying heartbeat {stale}: {revived:?}", node.node_states().len() - 1)));
+            }
+        }
+        // a strictly higher heartbeat recreates them (dead, not live)
+        node.verif_process_message(digest_msg(hb + 1, &all));
+        if node.node_states().len() != n + 1 {
+            return Err(fail(mon, "not-recreated-by-higher-heartbeat", format!("a digest with heartbeat {} recreated only {} of {n} removed members", hb + 1, node.node_states().len() - 1)));
+        }
+        node.verif_update_nodes_liveness();
+        if node.live_nodes().count() != 1 {
+            return Err(fail(mon, "live-without-evidence", "recreated members are live after a single heartbeat".into()));
+        }
+        tally.nontrivial(str_hash(&format!("{case:?}")));
+        tally.max("removed_members", n as u64);
+        tally.sample(|| serde_json::to_value(case).unwrap());
+        Ok(())
+    })
+}
+
+pub fn memory_strategy() -> impl Strategy<Value = MemoryCase> {
+    (prop_oneof![3 => 1u16..40, 2 => 40u16..400, 2 => 400u16..=500, 1 => Just(500u16)], 0u32..1000, any::<bool>(), any::<u32>())
+        .prop_map(|(members, heartbeat, second_wave, order_seed)| MemoryCase { members, heartbeat, second_wave, order_seed })
+}
+
+pub fn run_memory(ctx: &Ctx, report: &mut Report) {
+    report.push(run_proptest(ctx, "removed-member-memory", ctx.cases(600, 20_000), 200, memory_strategy, exec_memory));
+}
+
+pub fn replay_memory(ctx: &Ctx, sub: &str, case: &serde_json::Value) -> SubResult {
+    replay_case::<MemoryCase, _>(ctx, sub, case, exec_memory)
 }
